@@ -126,7 +126,7 @@ func (rule *RulePyflakes) runPyflakes(src string, pos *Pos) {
 		if len(stdout) == 0 {
 			return nil
 		}
-		if !bytes.Contains(stdout, []byte("<stdin>:")) {
+		if !bytes.HasPrefix(stdout, []byte("<stdin>:")) && !bytes.Contains(stdout, []byte("\n<stdin>:")) {
 			// The output (stderr is included) is not a list of issues. pyflakes did not check the script,
 			// for example it crashed with a traceback or the module is not installed
 			return fmt.Errorf("`%s` did not run successfully while checking script at %s. unexpected output: %q", rule.cmd.exe, pos, stdout)
